@@ -15,6 +15,8 @@ import GojaModel.C13.GoSlice
 import GojaModel.C13.Spec
 import GojaModel.C13.ExportTo
 import GojaModel.C13.NestedSpec
+import GojaModel.C13.DispatchDriver
+import GojaModel.C13.GatewayComposite
 
 namespace GojaModel.C13.Driver
 open GojaModel.C13 GojaModel.Proto
@@ -681,6 +683,25 @@ def runY (ws : List String) : String :=
     (canonY kindOf tys c.cache c.out fuel [] g).2
   | _ => "BADLINE"
 
+/-! ### B: composite and string parameters of a Go func (`B <Y|Z> <ra> <rb> <sarg> <nodes…>`, GatewayComposite.lean) -/
+
+def runB (ws : List String) : String :=
+  match ws with
+  | tz :: ra :: rb :: sarg :: nodeToks =>
+    let nodes := nodeToks.map parseYNode
+    let js : Nat → JFields := fun id => (nodes.getD id ("n", [])).2
+    let kindOf : Nat → String := fun id => (nodes.getD id ("n", [])).1
+    let tys := yTys (tz = "Z")
+    let asU : Nat → Nat → Bool := fun id t => t == 3 && kindOf id == "l"
+    let fuel := 6 * nodes.length + 10
+    let rs := gatewayArgsT js tys asU fuel [(.ref (nat! ra), .named 0), (.ref (nat! rb), .named 0)]
+    let shown := rs.map (fun (cg : TCtx × GVal) =>
+      if !cg.1.ok then "FUEL" else (canonY kindOf tys cg.1.cache cg.1.out fuel [] cg.2).2)
+    -- two parameters never share a Go value: each has its own identity cache
+    " | ".intercalate shown ++ " | same=false | str=" ++
+      (match convArgStr (parseJArg sarg) with | some s => s | none => "?")
+  | _ => "BADLINE"
+
 /-! ### KS: nested-wrapper histories through the documented semantics (NestedSpec.lean) -/
 
 def dumpK (s : KSp) (pre : String) : String :=
@@ -747,7 +768,10 @@ def handle (line : String) : String :=
   | "M" :: rest => runM rest
   | "C" :: rest => runC rest
   | "A" :: rest => runA rest
+  | "D" :: rest => GojaModel.C13.DispatchDriver.runD rest
+  | "DS" :: rest => GojaModel.C13.DispatchDriver.runDS rest
   | "Y" :: rest => runY rest
+  | "B" :: rest => runB rest
   | "KS" :: rest => runKS rest
   | "I" :: rest => runI rest
   | "J" :: rest => runJ rest
